@@ -105,7 +105,10 @@ func c01Exec(c *Ctx, cs docCase, parsed interface{}) string {
 func forEachDoc(c *Ctx, g *gen, depth func(kind string) int, selfNest int, f func(cs docCase, parsed interface{}, st alt, rel string)) {
 	for _, kind := range allKinds {
 		sts := g.states(kind, depth(kind))
-		routes := routesOf(kind, selfNest)
+		var routes []route
+		if selfNest >= 0 {
+			routes = routesOf(kind, selfNest)
+		}
 		c.Count("states_"+kind, 0)
 		for _, st := range sts {
 			if !c.Mine() {
